@@ -13,6 +13,30 @@ Theorem C01_routes_are_rotations : forall w x y z, w*w + x*x + y*y + z*z = 1 ->
 Proof. intros w x y z H. split; [exact (all_routes_spec w x y z H)|exact (Rspec_SO3 w x y z H)]. Qed.
 Print Assumptions C01_routes_are_rotations.
 
+(* the array routes given N = 4 (square!) and N = 3 rows return, row by row, the textbook matrix of that row *)
+Theorem C01_batch_rows : forall w0 x0 y0 z0 w1 x1 y1 z1 w2 x2 y2 z2 w3 x3 y3 z3,
+  w0*w0 + x0*x0 + y0*y0 + z0*z0 = 1 -> w1*w1 + x1*x1 + y1*y1 + z1*z1 = 1 ->
+  w2*w2 + x2*x2 + y2*y2 + z2*z2 = 1 -> w3*w3 + x3*x3 + y3*y3 + z3*z3 = 1 ->
+  let r4 := Val (Rspec [w0;x0;y0;z0] ++ Rspec [w1;x1;y1;z1] ++ Rspec [w2;x2;y2;z2] ++ Rspec [w3;x3;y3;z3]) in
+  let r3 := Val (Rspec [w0;x0;y0;z0] ++ Rspec [w1;x1;y1;z1] ++ Rspec [w2;x2;y2;z2]) in
+  C01_QA_to_DCM_N4_R w0 x0 y0 z0 w1 x1 y1 z1 w2 x2 y2 z2 w3 x3 y3 z3 = r4 /\
+  C01_DCM_fromq_batch_N4_R w0 x0 y0 z0 w1 x1 y1 z1 w2 x2 y2 z2 w3 x3 y3 z3 = r4 /\
+  C01_q2R_v1_batch_N4_R w0 x0 y0 z0 w1 x1 y1 z1 w2 x2 y2 z2 w3 x3 y3 z3 = r4 /\
+  C01_q2R_v2_batch_N4_R w0 x0 y0 z0 w1 x1 y1 z1 w2 x2 y2 z2 w3 x3 y3 z3 = r4 /\
+  C01_QA_to_DCM_N3_R w0 x0 y0 z0 w1 x1 y1 z1 w2 x2 y2 z2 = r3 /\
+  C01_DCM_fromq_batch_N3_R w0 x0 y0 z0 w1 x1 y1 z1 w2 x2 y2 z2 = r3 /\
+  C01_q2R_v1_batch_N3_R w0 x0 y0 z0 w1 x1 y1 z1 w2 x2 y2 z2 = r3.
+Proof.
+  intros w0 x0 y0 z0 w1 x1 y1 z1 w2 x2 y2 z2 w3 x3 y3 z3 H0 H1 H2 H3 r4 r3.
+  split; [exact (QA_to_DCM_N4_spec _ _ _ _ _ _ _ _ _ _ _ _ _ _ _ _ H0 H1 H2 H3)|].
+  split; [exact (DCM_fromq_batch_N4_spec _ _ _ _ _ _ _ _ _ _ _ _ _ _ _ _ H0 H1 H2 H3)|].
+  split; [exact (q2R_v1_batch_N4_spec _ _ _ _ _ _ _ _ _ _ _ _ _ _ _ _ H0 H1 H2 H3)|].
+  split; [exact (q2R_v2_batch_N4_spec _ _ _ _ _ _ _ _ _ _ _ _ _ _ _ _ H0 H1 H2 H3)|].
+  split; [exact (QA_to_DCM_N3_spec _ _ _ _ _ _ _ _ _ _ _ _ H0 H1 H2)|].
+  split; [exact (DCM_fromq_batch_N3_spec _ _ _ _ _ _ _ _ _ _ _ _ H0 H1 H2)|exact (q2R_v1_batch_N3_spec _ _ _ _ _ _ _ _ _ _ _ _ H0 H1 H2)].
+Qed.
+Print Assumptions C01_batch_rows.
+
 (* q and -q give the same matrix through every route *)
 Theorem C01_neg_same_matrix : forall w x y z, w*w + x*x + y*y + z*z = 1 ->
   Forall (fun f => f (-w) (-x) (-y) (-z) = f w x y z) routes.
